@@ -791,7 +791,7 @@ func danglingIndex(t *rapid.T, c *wasmenc.Module) ([]byte, string) {
 		return uint32(v)
 	}
 	b := wasmenc.NewB()
-	kind := rapid.SampledFrom([]string{"ref.func+declare", "ref.func+declare", "ref.func+declare", "ref.func", "call", "global.get", "local.get", "br", "call_indirect-type", "call_indirect-table", "table.get", "elem.drop", "data.drop", "export", "start", "elem-item", "callee-type", "callee-type", "block-type", "block-type", "memop-no-memory", "memop-no-memory", "memop-no-memory", "padded-immediate", "padded-immediate"}).Draw(t, "dangling")
+	kind := rapid.SampledFrom([]string{"ref.func+declare", "ref.func+declare", "ref.func+declare", "ref.func", "call", "global.get", "local.get", "br", "call_indirect-type", "call_indirect-table", "table.get", "elem.drop", "data.drop", "export", "start", "elem-item", "callee-type", "callee-type", "block-type", "block-type", "memop-no-memory", "memop-no-memory", "memop-no-memory", "padded-immediate", "padded-immediate", "elem-expr", "elem-expr", "elem-expr"}).Draw(t, "dangling")
 	switch kind {
 	case "ref.func+declare", "ref.func":
 		f := at(nfuncs)
@@ -871,6 +871,45 @@ func danglingIndex(t *rapid.T, c *wasmenc.Module) ([]byte, string) {
 		default:
 			b.I32Const(0).Raw(0x28).Append(pad()).Append(pad()).Drop() // i32.load align=0 offset=0, both padded
 		}
+	case "elem-expr":
+		// an element segment in the expression encoding (flags 4-7) whose items are ref.func /
+		// global.get / ref.null expressions with indices at the end of, beyond, or far beyond
+		// their index spaces (the decoded item packs flags into the upper bits of the index),
+		// in a module that has non-reference globals; the added function calls through slot 0
+		c.Globals = append(c.Globals, wasmenc.Global{Type: wasmenc.I64, Init: wasmenc.NewB().I64Const(8).Bytes()})
+		nglobals := impGlobals + uint32(len(c.Globals))
+		if impTables+uint32(len(c.Tables)) == 0 {
+			c.Tables = append(append([][]byte{}, c.Tables...), wasmenc.TableType(0x70, 2, -1))
+		}
+		hostile := []uint32{at(nfuncs), 1 << 27, 1<<30 | (nglobals - 1), 1<<30 | at(nglobals), 1 << 30, 1<<31 - 1, 1 << 31, 0xffffffff}
+		item := func() []byte {
+			switch rapid.IntRange(0, 3).Draw(t, "itemkind") {
+			case 0:
+				return wasmenc.NewB().RefNull(0x70).End().Bytes()
+			case 1:
+				return wasmenc.NewB().GlobalGet(rapid.SampledFrom([]uint32{at(nglobals), nglobals - 1, 1 << 30}).Draw(t, "itemglobal")).End().Bytes()
+			default:
+				return wasmenc.NewB().RefFunc(rapid.SampledFrom(hostile).Draw(t, "itemfunc")).End().Bytes()
+			}
+		}
+		var items [][]byte
+		for i, n := 0, rapid.IntRange(1, 3).Draw(t, "nitems"); i < n; i++ {
+			items = append(items, item())
+		}
+		off := wasmenc.NewB().I32Const(0).End().Bytes()
+		var seg []byte
+		switch rapid.IntRange(4, 7).Draw(t, "elemflag") {
+		case 4:
+			seg = wasmenc.Cat([]byte{4}, off, wasmenc.Vec(items))
+		case 5:
+			seg = wasmenc.Cat([]byte{5, 0x70}, wasmenc.Vec(items))
+		case 6:
+			seg = wasmenc.Cat([]byte{6, 0}, off, []byte{0x70}, wasmenc.Vec(items))
+		default:
+			seg = wasmenc.Cat([]byte{7, 0x70}, wasmenc.Vec(items))
+		}
+		c.Elems = append(c.Elems, seg)
+		b.I32Const(0).CallIndirect(uint32(len(c.Types)), 0)
 	case "callee-type":
 		// an earlier function calls a later function whose type index dangles
 		if len(c.Funcs) >= 2 {
